@@ -22,7 +22,7 @@ inductive Ev where
   | fast (k : Nat) (req : Req)                -- one block of the quality 0/1 one-shot path
   | mdHeader (n lbb : Nat)                    -- metadata block header for `n` bytes behind `lbb` carry bits
   | mdBody (bytes : Bytes)                    -- metadata payload bytes
-  | tau                                       -- bookkeeping only
+  | tau (k : Nat)                             -- bookkeeping only: 0 check_flush_complete, 1 flush request on an empty block, 2 metadata entry, 3 metadata block complete
 deriving Repr, DecidableEq
 
 /-! ### what `encode_data` writes itself -/
@@ -111,7 +111,7 @@ def PadDue (s : St) : Prop := s.streamState = .flushRequested ∧ s.lastBytesBit
 inductive Step (o : Oracle) (op : Nat) : St × Io → Ev → St × Io → Prop
   | init {s : St} {io : Io} (hf : IsFresh s) :
       Step o op (s, io) (.window (ensureInitialized s).carry) (ensureInitialized s, io)
-  | copy {s s1 : St} {io : Io} (hI : Inv s) (hw : s.inputPos + io.availIn < two64)
+  | copy {s s1 : St} {io : Io} (hI : Inv s) (hw : s.inputPos + io.availIn < two64) (hop : op ≤ 2) (hnf : ¬ fastMode s.params)
       (hst : s.streamState = .processing) (hrm : s.remainingMetadata = u32Max)
       (hc : remainingInputBlockSize s ≠ 0 ∧ io.availIn ≠ 0) (hn : copyN s io ≤ io.input.length)
       (h : copyInputToRingBuffer s (io.input.take (copyN s io)) io.input.length = .ok s1) :
@@ -121,7 +121,7 @@ inductive Step (o : Oracle) (op : Nat) : St × Io → Ev → St × Io → Prop
       (h : injectBytePaddingBlock s = .ok s1) : Step o op (s, io) (.pad s.lastBytesBits) (s1, io)
   | push {s s1 : St} {io io1 : Io} (hI : Inv s) (hc : ¬ PadDue s)
       (h : injectFlushOrPushOutput s io = .ok (s1, io1, true)) : Step o op (s, io) .push (s1, io1)
-  | encSlow {s s2 : St} {io : Io} {req : Req} (hI : Inv s) (hop : op ≤ 2) (hrm : s.remainingMetadata = u32Max)
+  | encSlow {s s2 : St} {io : Io} {req : Req} (hI : Inv s) (hop : op ≤ 2) (hnf : ¬ fastMode s.params) (hrm : s.remainingMetadata = u32Max)
       (hnc : ¬ (remainingInputBlockSize s ≠ 0 ∧ io.availIn ≠ 0)) (hnp : ¬ PadDue s)
       (hpend : s.pending = []) (hst : s.streamState = .processing)
       (hgo : remainingInputBlockSize s = 0 ∨ op ≠ 0)
@@ -130,11 +130,11 @@ inductive Step (o : Oracle) (op : Nat) : St × Io → Ev → St × Io → Prop
         (markAfterEncode s2 (slowIl op io) (slowFf op io), { io with reqs := io.reqs ++ [req] })
   | cfc {s : St} {io : Io} (hI : Inv s) (hop : op ≤ 2) (hrm : s.remainingMetadata = u32Max) (hnp : ¬ PadDue s)
       (hfl : s.streamState ≠ .processing → io.availIn = 0) :
-      Step o op (s, io) .tau (checkFlushComplete s, io)
+      Step o op (s, io) (.tau 0) (checkFlushComplete s, io)
   | fastFlush {s : St} {io : Io} (hI : Inv s) (hfm : fastMode s.params) (hrm : s.remainingMetadata = u32Max)
       (hnp : ¬ PadDue s) (hpend : s.pending = [])
       (hst : s.streamState = .processing) (hop1 : op = 1) (hz : io.availIn = 0) :
-      Step o op (s, io) .tau ({ s with streamState := .flushRequested }, io)
+      Step o op (s, io) (.tau 1) ({ s with streamState := .flushRequested }, io)
   | fastBlock {s : St} {io : Io} (hI : Inv s) (hfm : fastMode s.params) (hop : op ≤ 2) (hrm : s.remainingMetadata = u32Max)
       (hnp : ¬ PadDue s) (hpend : s.pending = [])
       (hst : s.streamState = .processing) (hgo : io.availIn ≠ 0 ∨ op ≠ 0)
@@ -145,7 +145,7 @@ inductive Step (o : Oracle) (op : Nat) : St × Io → Ev → St × Io → Prop
   | mdEnter {s : St} {io : Io} (hI : Inv s) (hop : op = 3)
       (hentry : (s.remainingMetadata ≠ u32Max ∧ io.availIn = s.remainingMetadata) ∨
                 (s.remainingMetadata = u32Max ∧ s.streamState = .processing ∧ io.availIn ≤ 16777216)) :
-      Step o op (s, io) .tau (mdEnter (updateSizeHint s 0) io.availIn, io)
+      Step o op (s, io) (.tau 2) (mdEnter (updateSizeHint s 0) io.availIn, io)
   | mdEnc {s s' : St} {io : Io} {req : Req} {n : Nat} (hM : MdInv n s io) (hop : op = 3) (hpend : s.pending = [])
       (hne : s.inputPos ≠ s.lastFlushPos) (h : encodeData o s 1 false true = .ok (s', true, req)) :
       Step o op (s, io) (encEv o s 1 false true) (s', { io with reqs := io.reqs ++ [req] })
@@ -155,7 +155,7 @@ inductive Step (o : Oracle) (op : Nat) : St × Io → Ev → St × Io → Prop
       Step o op (s, io) (.mdHeader s.remainingMetadata s.lastBytesBits) (mdHeadSt s, io)
   | mdDone {s : St} {io : Io} {n : Nat} (hM : MdInv n s io) (hop : op = 3) (hpend : s.pending = [])
       (hlf : s.inputPos = s.lastFlushPos) (hst : s.streamState = .metadataBody) (hz : s.remainingMetadata = 0) :
-      Step o op (s, io) .tau (mdDoneSt s, io)
+      Step o op (s, io) (.tau 3) (mdDoneSt s, io)
   | mdOut {s : St} {io : Io} {n : Nat} (hM : MdInv n s io) (hop : op = 3) (hpend : s.pending = [])
       (hlf : s.inputPos = s.lastFlushPos) (hst : s.streamState = .metadataBody) (hnz : s.remainingMetadata ≠ 0)
       (hao : io.availOut ≠ 0) (hle : ¬ mdOutN s io > io.input.length) :
@@ -164,6 +164,10 @@ inductive Step (o : Oracle) (op : Nat) : St × Io → Ev → St × Io → Prop
       (hlf : s.inputPos = s.lastFlushPos) (hst : s.streamState = .metadataBody) (hnz : s.remainingMetadata ≠ 0)
       (hao : io.availOut = 0) (hle : ¬ mdTinyN s > io.input.length) :
       Step o op (s, io) (.mdBody (io.input.take (mdTinyN s))) (mdTinySt s io, mdTinyIo s io)
+
+theorem isFreshInit {s : St} (h : IsFresh s) : s.isInitialized = false := by
+  obtain ⟨p, rfl⟩ := h
+  rfl
 
 inductive Steps (o : Oracle) (op : Nat) : St × Io → List Ev → St × Io → Prop
   | nil (c : St × Io) : Steps o op c [] c
